@@ -82,12 +82,22 @@ FROM_ALLOWED = {
 }
 
 
+def _unknown(ctx):
+    u = getattr(ctx, '_unknown_fns', None)
+    if u is None:
+        u = set(ctx.facts.unknown_functions())
+        ctx._unknown_fns = u
+    return u
+
+
 def scope_bodies(ctx):
     out = {}
     for pat in SCOPE:
         for b in ctx.facts.find(pat):
             if b.rec.get('derive') or '::test::' in b.nid or b.nid in DATA_LEVEL:
                 continue
+            if getattr(ctx.facts, 'inline', False) and b.nid.split('::{')[0] in _unknown(ctx):
+                continue        # a new helper: spliced into (and judged as part of) its callers in this run
             out[b.nid] = b
     return out
 
